@@ -66,12 +66,20 @@ type Child struct {
 
 // Item kinds: header, features, streamerr, elem, garbage.
 type Item struct {
-	Sp       bool    `json:"sp,omitempty"`
-	Kind     string  `json:"kind"`
-	Bad      bool    `json:"bad,omitempty"` // header: rejected (unsupported version)
-	Children []Child `json:"children,omitempty"`
-	Space    string  `json:"space,omitempty"`
-	Local    string  `json:"local,omitempty"`
+	Sp   bool   `json:"sp,omitempty"`
+	Kind string `json:"kind"`
+	Bad  bool   `json:"bad,omitempty"` // header: version 0.9 (rejected)
+	// header attributes: ID and Lang are the values of id and xml:lang ("" = the
+	// defaults "s1" / none); Omit lists attributes left out altogether (id,
+	// version, lang, xmlns, from, to); From/To override the addresses
+	ID       string   `json:"id,omitempty"`
+	Lang     string   `json:"lang,omitempty"`
+	Omit     []string `json:"omit,omitempty"`
+	From     string   `json:"from,omitempty"`
+	To       string   `json:"to,omitempty"`
+	Children []Child  `json:"children,omitempty"`
+	Space    string   `json:"space,omitempty"`
+	Local    string   `json:"local,omitempty"`
 }
 
 // CB is one logged callback (coq: cb).
@@ -127,6 +135,43 @@ func RenderChild(c Child) string {
 	return s + "/>"
 }
 
+// HeaderAttrs returns the attributes of a header item in the order id,
+// version, xml:lang, xmlns, from, to; nil = absent.
+func HeaderAttrs(it Item, s2s bool, domain string) [6]*string {
+	p := func(s string) *string { return &s }
+	id := it.ID
+	if id == "" {
+		id = "s1"
+	}
+	version := "1.0"
+	if it.Bad {
+		version = "0.9"
+	}
+	xmlns := "jabber:client"
+	if s2s {
+		xmlns = "jabber:server"
+	}
+	from, to := "srv."+domain, "me@"+domain
+	if it.From != "" {
+		from = it.From
+	}
+	if it.To != "" {
+		to = it.To
+	}
+	a := [6]*string{p(id), p(version), nil, p(xmlns), p(from), p(to)}
+	if it.Lang != "" {
+		a[2] = p(it.Lang)
+	}
+	for _, o := range it.Omit {
+		for i, name := range []string{"id", "version", "lang", "xmlns", "from", "to"} {
+			if o == name {
+				a[i] = nil
+			}
+		}
+	}
+	return a
+}
+
 // RenderItem renders one peer item for an initiating session me@domain talking to
 // srv.domain (the two addresses differ in their domainpart on purpose).
 func RenderItem(it Item, s2s bool, domain string) []byte {
@@ -137,15 +182,14 @@ func RenderItem(it Item, s2s bool, domain string) []byte {
 	var s string
 	switch it.Kind {
 	case "header":
-		version := "1.0"
-		if it.Bad {
-			version = "0.9"
+		a := HeaderAttrs(it, s2s, domain)
+		s = `<?xml version='1.0'?>` + sp + `<stream:stream xmlns:stream='` + NSStream + `'`
+		for i, name := range []string{"id", "version", "xml:lang", "xmlns", "from", "to"} {
+			if a[i] != nil {
+				s += " " + name + "='" + xmlEsc(*a[i]) + "'"
+			}
 		}
-		xmlns := "jabber:client"
-		if s2s {
-			xmlns = "jabber:server"
-		}
-		s = `<?xml version='1.0'?>` + sp + `<stream:stream xmlns='` + xmlns + `' xmlns:stream='` + NSStream + `' version='` + version + `' id='s1' from='srv.` + domain + `' to='me@` + domain + `'>`
+		s += ">"
 	case "features":
 		s = sp + `<stream:features xmlns:stream='` + NSStream + `'>`
 		for _, c := range it.Children {
@@ -299,15 +343,16 @@ func CoqOutcome(o Outcome) string {
 	return fmt.Sprintf("(mkO %s %s %s)", CoqN(o.Mask), hx.CoqBool(o.Restart), hx.CoqBool(o.Err))
 }
 
-func CoqItem(it Item) string {
+func CoqItem(it Item, s2s bool, domain string) string {
 	var b string
 	switch it.Kind {
 	case "header":
-		if it.Bad {
-			b = "(PHeader HBad)"
-		} else {
-			b = "(PHeader HGood)"
+		a := HeaderAttrs(it, s2s, domain)
+		b = "(PHeader (mkH"
+		for _, v := range a {
+			b += " " + CoqOptStr(v)
 		}
+		b += "))"
 	case "features":
 		var cs []string
 		for _, c := range it.Children {
@@ -330,10 +375,10 @@ func CoqItem(it Item) string {
 	return fmt.Sprintf("(mkItem %s %s)", hx.CoqBool(it.Sp), b)
 }
 
-func CoqItems(its []Item) string {
+func CoqItems(its []Item, s2s bool, domain string) string {
 	var xs []string
 	for _, it := range its {
-		xs = append(xs, CoqItem(it))
+		xs = append(xs, CoqItem(it, s2s, domain))
 	}
 	return CoqList(xs)
 }
@@ -369,7 +414,7 @@ func CoqConfig(feats []FeatSpec, hsOK bool, domain string) string {
 	for _, f := range feats {
 		fs = append(fs, CoqFeat(f))
 	}
-	return fmt.Sprintf("(mkCfg %s %s %s)", CoqList(fs), hx.CoqBool(hsOK), CoqStr(domain))
+	return fmt.Sprintf("(mkCfg %s %s %s %s %s)", CoqList(fs), hx.CoqBool(hsOK), CoqStr(domain), CoqStr("srv."+domain), CoqStr("me@"+domain))
 }
 
 // ---------------------------------------------------------------- in-memory socket pair
